@@ -4,8 +4,10 @@
      {"ev":"Call","r","k","e","S":[..]}       logged BEFORE the goroutine calling <Kind>DutiesCache(e, S) starts
      {"ev":"FetchCall","r","k","e","idxs"}    the cache's beacon call arrived at the mock (indices asked for)
      {"ev":"Compute","r","v"}                 the mock computed its answer (truth version v of that epoch)
+     {"ev":"Fail","r"}                        instead of Compute: the mock will fail this call (the driver's choice)
      {"ev":"Deliver","r"}                     logged BEFORE the mock is allowed to return to the cache code
      {"ev":"Ret","r","ans":[{"x","j","v"},..],"mv"}   logged AFTER the call returned (v = -1: undecodable / mutated)
+     {"ev":"Ret","r","err":".."}              the call returned a non-nil error (whatever else it returned is ignored)
      {"ev":"Reorg","e0"}  {"ev":"InvCall","e0"} {"ev":"InvRet"}  {"ev":"TrimCall","ep"} {"ev":"TrimRet"}
      {"ev":"Mutate","a"}                      the driver wrote to everything reachable from an earlier answer
    Call-type events are logged before the operation starts and return-type events after it completed, so the
@@ -30,9 +32,14 @@ TFetchCall == /\ IsEvent("FetchCall") /\ Ev.r \notin seen
 TCompute == /\ IsEvent("Compute") /\ Ev.r \in seen
             /\ rq[Ev.r].st = "fetch" /\ tv[rq[Ev.r].e] = Ev.v
             /\ Fetch(Ev.r) /\ UNCHANGED seen
+TFail == /\ IsEvent("Fail") /\ Ev.r \in seen
+         /\ FetchFail(Ev.r) /\ UNCHANGED seen
+\* after a failed call OnFetchError = "either" leaves open whether the cache code is about to return the error or an
+\* answer; the Ret event that follows decides, and the answer is judged like any other (Mark)
 TDeliver == IsEvent("Deliver") /\ Deliver(Ev.r) /\ UNCHANGED seen
 \* the returned answer is bound to the spec's in Mark (named failures)
 TRet == IsEvent("Ret") /\ ~Has(Ev, "err") /\ Return(Ev.r) /\ seen' = seen \ {Ev.r}
+TRetErr == IsEvent("Ret") /\ Has(Ev, "err") /\ ReturnErr(Ev.r) /\ seen' = seen \ {Ev.r}
 TReorg == IsEvent("Reorg") /\ Reorg(Ev.e0) /\ UNCHANGED seen
 TInvCall == IsEvent("InvCall") /\ InvCall(Ev.e0) /\ UNCHANGED seen
 TInvRet == IsEvent("InvRet") /\ InvRet /\ UNCHANGED seen
@@ -43,23 +50,25 @@ TMutate == IsEvent("Mutate") /\ UNCHANGED <<vars, seen>>
 TSilent == /\ \/ \E r \in Reqs : ReadGen(r) \/ Lookup(r) \/ StoreOrAmend(r)
               \/ InvBump \/ InvTrim \/ TrimStep
            /\ Silent /\ UNCHANGED seen
-TraceNext == TReset \/ TCall \/ TFetchCall \/ TCompute \/ TDeliver \/ TRet \/ TReorg \/ TInvCall \/ TInvRet
+TraceNext == TReset \/ TCall \/ TFetchCall \/ TCompute \/ TFail \/ TDeliver \/ TRet \/ TRetErr \/ TReorg \/ TInvCall \/ TInvRet
              \/ TTrimCall \/ TTrimRet \/ TMutate \/ TSilent
 TraceSpec == TraceInit /\ [][TraceNext]_tvars
 
 \* the properties of the answers are evaluated where an answer appears: in the states whose latest consumed event
 \* is a Ret (`last` is then the spec's answer for that very return)
 Prev == Trace[l - 1]
-JustRet == l > 1 /\ Prev.ev = "Ret"
+JustRet == l > 1 /\ Prev.ev = "Ret" /\ ~Has(Prev, "err")
 LoggedDuties == {[x |-> d.x, j |-> d.j, v |-> d.v] : d \in SeqToSet(Prev.ans)}
 Mark == /\ JustRet => /\ CheckInv("PrivateCopies", Prev.mv # -1 /\ \A d \in LoggedDuties : d.v # -1)
                        /\ CheckInv("AnswerAsSpec", /\ LoggedDuties = last.duties
                                                    /\ Len(Prev.ans) = Cardinality(last.duties)
                                                    /\ Prev.mv = last.mv)
+                       /\ CheckInv("NoPartialOnError", NoPartialOnError)
                        /\ CheckInv("AnswerEqualsBN", AnswerEqualsBN)
                        /\ CheckInv("FreshAfterInvalidate", FreshAfterInvalidate)
         /\ CheckInv("FetchExactlyMissing", FetchExactlyMissing)
         /\ CheckInv("TypeOK", TypeOK)
 ActOK == /\ CheckInv("DropsAffected", DropsAffected)
+         /\ CheckInv("FailStoresNothing", FailStoresNothing)
          /\ HWMarkA
 ====
